@@ -36,6 +36,10 @@ func init() {
 		"fmt.Sprint":             func(in *Interp, fn *ssa.Function, a []Value) Value { return concreteStr("<fmt>") },
 		"fmt.Errorf":             fmtErrorf,
 		"time.Now":               func(in *Interp, fn *ssa.Function, a []Value) Value { return zero(fn.Signature.Results().At(0).Type()) },
+		// environment: the read succeeds and fills the whole buffer (its content is arbitrary for the callers and left as found)
+		"crypto/rand.Read": func(in *Interp, fn *ssa.Function, a []Value) Value {
+			return Tuple{BVConstI(64, int64(len(a[0].(Slice).A))), Iface{}}
+		},
 		"time.Sleep":             func(in *Interp, fn *ssa.Function, a []Value) Value { in.runGoroutines(); return nil }, // sleeping lets every started goroutine run to completion
 		"time.Since":             func(in *Interp, fn *ssa.Function, a []Value) Value { return BVConstI(64, 0) },
 		"strings.Repeat": func(in *Interp, fn *ssa.Function, a []Value) Value {
